@@ -70,10 +70,9 @@ def split_subsection_names(key: str) -> list[str]:
         The individual (sub)sections.
 
     """
-    placeholder = "\x1f"  # unit separator control character (ASCII control char 31)
-    key = key.replace("\\/", placeholder)
-    parts = (part.strip() for part in key.split("/"))
-    return [part.replace(placeholder, "/") for part in parts]
+    # split on every "/" that is not escaped, strip, then un-escape
+    parts = (part.strip() for part in re.split(r"(?<!\\)/", key))
+    return [part.replace("\\/", "/") for part in parts]
 
 
 @dataclass
